@@ -4,9 +4,11 @@ CONSTANTS
   Interleave = FALSE
   SeqParams <- SeqPlain
   Modes = {"Sign", "SignAndEncrypt"}
+  Splits = {"any"}
+  PreInjects = {"none", "opn.cert.stranger", "opn.eccert", "opn.junkcert"}
   Moves = {"damage", "inject"}
-  Damages = {"forge.nokeys", "body", "sig"}
-  Injects = {"opn.none", "type.unknown"}
+  Damages = {"forge.nokeys"}
+  Injects = {"opn.none", "type.unknown", "opn.cert.stranger", "opn.eccert", "opn.junkcert"}
   Budget = 2
   MaxChunks = 0
   Sweeps <- NoSweep
